@@ -6,6 +6,8 @@ sys.path.insert(0, os.path.dirname(os.path.dirname(os.path.abspath(__file__))))
 from concurrent.futures import ProcessPoolExecutor
 from sfa.__main__ import run_check, PROPS
 
+OWN = "--own" in sys.argv
+
 def one(d):
     name = os.path.basename(d.rstrip("/"))
     tmp = tempfile.mkdtemp(prefix="sfa-seed-")
@@ -15,7 +17,7 @@ def one(d):
         if r.returncode != 0:
             return name, None
         fired = {}
-        for p in PROPS:
+        for p in ([name.split("-")[0]] if OWN else PROPS):
             code, ctx, viol, known, err = run_check(p, "quick", repo=tmp, quiet=True, write=False)
             if code != 0:
                 fired[p] = (code, [f"{i.rule} {i.func} [{i.construct}]" for i in viol][:6], (err or "")[:200])
@@ -42,7 +44,7 @@ if __name__ == "__main__":
             print(f"{name:14s} own={'yes' if own else 'NO ':3s} violations={v} analysis_errors={e}")
             if not own and prop in e:
                 print("       ", fired[prop][2])
-            if update:
+            if update and not OWN:
                 mp = os.path.join(d, "meta.json")
                 meta = json.load(open(mp))
                 meta["caught_by"] = {p: x[1] for p, x in fired.items() if x[0] == 1}
